@@ -230,9 +230,15 @@ def shared_default_sites(model, fn):
     out = []
     if fn.cls is None:
         return out
+    PURE = {'len', 'list', 'sorted', 'iter', 'tuple', 'set', 'dict', 'str', 'enumerate', 'reversed', 'isinstance',
+            'bool', 'any', 'all', 'min', 'max', 'sum', 'repr', 'print', 'frozenset', 'zip', 'map', 'filter'}
     for n in M.walk_no_nested(fn.node):
         recv = None
         how = ''
+        if isinstance(n, ast.Call) and M.call_name(n) not in PURE and not M.call_name(n).startswith('log'):
+            for a in list(n.args) + [k.value for k in n.keywords]:
+                if isinstance(a, ast.Attribute) and M.norm(a.value) == 'self':
+                    recv, how = a, 'passed to %s()' % M.call_name(n)
         if isinstance(n, ast.Call) and isinstance(n.func, ast.Attribute) and n.func.attr in MUTATORS:
             recv, how = n.func.value, n.func.attr
         elif isinstance(n, (ast.Assign, ast.AugAssign)):
